@@ -81,7 +81,7 @@ var c06Methods = []string{"Execute", "ExecuteConcurrent", "ExecuteMixModel", "Ex
 func init() {
 	register(&Prop{
 		ID:   "C06",
-		Rule: "request histories on pools of size (1,2),(1,3),(2,3),(2,4),(3,6): start request (unique id, payload objects injected under a non-empty subset of three key names plus an identity object, one of 17 pool execute methods) and release the k-th parked request; every request parks mid-rule on a Hold gate keyed by its id, so several requests overlap while rules are mid-execution; rule set: per key name a rule that compares <key>.Id with the request's identity before and after the gate, writes <key>.Out and returns <key>.Id; oracle per finished request: every rule over an injected key saw and returned the request's own id before and after the gate, every rule over a key the request did not inject failed (an entry there is data leaked from an overlapping or earlier request), every payload's Out is 0 or the own id, and the result map copied at return equals the same map at the end of the history. Non-trivial: >= 2 requests were parked mid-rule simultaneously and the history has more requests than instances with different key sets; distinct by case hash",
+		Rule: "request histories on pools of size (1,2),(1,3),(2,3),(2,4),(3,6): start request (unique id, payload objects injected under a non-empty subset of three key names plus an identity object, optionally also under the name kapi of an object the pool itself was constructed with, one of 17 pool execute methods) and release the k-th parked request; every request parks mid-rule on a Hold gate keyed by its id, so several requests overlap while rules are mid-execution; rule set: per key name a rule that compares <key>.Id with the request's identity before and after the gate, writes <key>.Out and returns <key>.Id; oracle per finished request: every rule over an injected key saw and returned the request's own id before and after the gate, every rule over a key the request did not inject failed (an entry there is data leaked from an overlapping or earlier request), a request that did not inject kapi sees the pool's own object or nothing, every payload's Out is 0 or the own id, and the result map copied at return equals the same map at the end of the history. Non-trivial: >= 2 requests were parked mid-rule simultaneously and the history has more requests than instances with different key sets; distinct by case hash",
 		New:  func() interface{} { return &C06Case{} },
 		Gen: func(t *rapid.T) interface{} {
 			c := &C06Case{}
